@@ -168,6 +168,31 @@ fn trigger_probes(rep: &mut Report) {
     trigger(&mut db, "TD", TriggerTiming::After, TriggerEvent::Delete, true, "INSERT INTO AUDIT VALUES (OLD.C0, OLD.C1, NULL)");
     db.must("INSERT INTO AUDIT VALUES (2, 0, 0)");
     check(&mut db, "DELETE FROM T WHERE C0 >= 1", "C11/trigger-side-effects-kept", rep);
+    // regression (repaired): an UPDATE value of another integer storage type is coerced like INSERT
+    // does, and a value that cannot be stored fails before the first write
+    let mut db = Db::new();
+    db.must("CREATE TABLE T (ID BIGINT PRIMARY KEY, C1 INTEGER, C2 INTEGER)");
+    db.must("CREATE TABLE W (ID INTEGER PRIMARY KEY, S SMALLINT, V VARCHAR(10))");
+    db.must("INSERT INTO T VALUES (1, 1, 1), (2, 2, 2), (3, 3, NULL), (4, 4, 4)");
+    db.must("INSERT INTO W VALUES (1, 1, 'a'), (2, 2, 'b'), (3, 30000, 'c')");
+    for (sql, must_be_ok) in [
+        ("UPDATE T SET C2 = COALESCE(C2 + 1, ID) WHERE C1 > 0", Some(true)),
+        ("UPDATE T SET ID = 5 WHERE ID = 4", Some(true)),
+        ("UPDATE W SET S = S + 10000", None),
+        ("UPDATE W SET S = CASE WHEN ID < 3 THEN S + 1 ELSE 40000 END", None),
+        ("UPDATE W SET ID = CASE WHEN ID < 3 THEN ID + 10 ELSE 'x' END", None),
+        ("UPDATE W SET V = CASE WHEN ID < 3 THEN 'zz' ELSE 5 END", None),
+    ] {
+        let before = snapshot(&mut db);
+        let out = db.exec(sql);
+        let after = snapshot(&mut db);
+        rep.count("update_storage_type_probes");
+        rep.case(&format!("probe update-type {}", sql), true);
+        if out.is_panic() || (out.is_err() && before != after) || (must_be_ok == Some(true) && !out.is_ok()) {
+            rep.fail(FailKind::Oracle, None, "UPDATE with a value of another storage type: partially applied, or an in-range integer refused",
+                &format!("{}\n--- before ---\n{}--- after => {} ---\n{}", db.log.join(";\n"), before, out.brief(), after));
+        }
+    }
     // (c) DELETE: row 1 cascades into C1T, then row 2 is restricted by C2T
     let mut db = Db::new();
     db.must("CREATE TABLE T (C0 INT PRIMARY KEY, C1 INT)");
